@@ -114,3 +114,87 @@ func ZzvC16Evictor() {
 	}
 	zzverif.Reach("end")
 }
+
+// ---- two evictors at the same time (see the comment in h_proxy.go) ------------------------------------
+
+type zzvNestedAPI struct {
+	pe     *PodEvictor
+	second *corev1.Pod
+	depth  int
+	done   []string
+}
+
+type zzvNestedClient struct {
+	clientset.Interface
+	api *zzvNestedAPI
+}
+type zzvNestedPolicy struct {
+	policyv1.PolicyV1Interface
+	api *zzvNestedAPI
+}
+type zzvNestedEvictions struct {
+	policyv1.EvictionInterface
+	api *zzvNestedAPI
+	ns  string
+}
+
+func (c *zzvNestedClient) PolicyV1() policyv1.PolicyV1Interface { return &zzvNestedPolicy{api: c.api} }
+func (p *zzvNestedPolicy) Evictions(ns string) policyv1.EvictionInterface {
+	return &zzvNestedEvictions{api: p.api, ns: ns}
+}
+func (e *zzvNestedEvictions) Evict(ctx context.Context, ev *policyv1api.Eviction) error {
+	e.api.depth++
+	if e.api.depth == 1 && e.api.second != nil {
+		e.api.pe.Evict(ctx, e.api.second, framework.EvictOptions{}) // the other goroutine, start to finish
+	}
+	e.api.done = append(e.api.done, e.ns+"/"+ev.Name)
+	return nil
+}
+
+// ZzvC16EvictorRace: two evictions through PodEvictor.Evict, the second one running while the first is
+// inside the eviction API call.
+func ZzvC16EvictorRace() {
+	var perNode, perNs *uint
+	var capNode, capNs uint64
+	if zzverif.Choice("has_capNode", 2) == 1 {
+		capNode = zzverif.Uint64("capNode", 0, 3)
+		u := uint(capNode)
+		perNode = &u
+	}
+	if zzverif.Choice("has_capNamespace", 2) == 1 {
+		capNs = zzverif.Uint64("capNamespace", 0, 3)
+		u := uint(capNs)
+		perNs = &u
+	}
+	nodes := []string{"n0", "n1"}
+	nss := []string{"a", "b"}
+	mk := func(i int) *corev1.Pod {
+		is := strconv.Itoa(i)
+		return &corev1.Pod{ObjectMeta: metav1.ObjectMeta{Namespace: nss[zzverif.Choice("ns"+is, 2)], Name: "p" + is}, Spec: corev1.PodSpec{NodeName: nodes[zzverif.Choice("node"+is, 2)]}}
+	}
+	p1, p2 := mk(1), mk(2)
+	api := &zzvNestedAPI{second: p2}
+	pe := NewPodEvictor(&zzvNestedClient{api: api}, zzvRecorder{}, "policy/v1", false, perNode, perNs)
+	api.pe = pe
+	pe.Evict(context.TODO(), p1, framework.EvictOptions{})
+	byNode, byNs := map[string]uint64{}, map[string]uint64{}
+	for _, p := range []*corev1.Pod{p1, p2} {
+		for _, d := range api.done {
+			if d == p.Namespace+"/"+p.Name {
+				byNode[p.Spec.NodeName]++
+				byNs[p.Namespace]++
+			}
+		}
+	}
+	if len(api.done) == 2 {
+		zzverif.Reach("both-evictions-issued")
+	}
+	for _, n := range nodes {
+		zzverif.Assert(zzverif.Implies(perNode != nil, byNode[n] <= capNode), "evictions per node never exceed the cap, no matter how many evict at the same time")
+	}
+	for _, ns := range nss {
+		zzverif.Assert(zzverif.Implies(perNs != nil, byNs[ns] <= capNs), "evictions per namespace never exceed the cap, no matter how many evict at the same time")
+	}
+	zzverif.Assert(pe.TotalEvicted() == len(api.done), "the total counter equals the evictions issued")
+	zzverif.Reach("end")
+}
